@@ -143,9 +143,23 @@ class Mlp(nn.Module):
         return self.b(torch.tanh(self.a(x)))
 
 
+class Buffered(nn.Module):
+    """a module that owns buffers (a float one on the computation path, an integer counter off it): 'no storage is shared with the result'
+    speaks of buffers as much as of parameters"""
+
+    def __init__(self) -> None:
+        super().__init__()
+        self.l = nn.Linear(5, 5)
+        self.register_buffer("gate", torch.randn(5))
+        self.register_buffer("steps", torch.zeros((), dtype=torch.long))
+
+    def forward(self, x: torch.Tensor) -> torch.Tensor:
+        return self.l(x) * torch.sigmoid(self.gate)
+
+
 def family() -> Dict[str, Callable[[], nn.Module]]:
     import unit_scaling as uu
-    return {"mlp": Mlp, "residual": ResBlock, "attention": AttnBlock, "uu.MLP": lambda: uu.MLP(5, 2)}
+    return {"mlp": Mlp, "residual": ResBlock, "attention": AttnBlock, "uu.MLP": lambda: uu.MLP(5, 2), "buffered": Buffered}
 
 
 def example(name: str) -> List[torch.Tensor]:
@@ -496,7 +510,7 @@ def run(rep: Report, only: str = "") -> None:
                 tasks.append((task_orders, (mname, fkey, precall, timeout)))
     chains = [("unit_scale",), ("simulate",), ("track",), ("unit_scale", "simulate"), ("simulate", "unit_scale"), ("unit_scale", "simulate", "track"),
               ("simulate", "unit_scale", "track"), ("simulate", "track"), ("unit_scale", "track")]
-    for mname in fam + ["uu.MLP"]:
+    for mname in fam + ["uu.MLP", "buffered"]:
         for ch in chains:
             if mname == "uu.MLP" and "unit_scale" in ch:
                 continue  # unit_scale() of a module that already calls unit-scaled functions: outside the property's family
@@ -511,7 +525,7 @@ def run(rep: Report, only: str = "") -> None:
     rep.bounds = {"_order_backends": f"lists of length 1..{5 if thorough else 4} whose backend kinds are solver-selected (at most one unit-scaling and one quantisation backend)",
                   "orders": "every order of {unit_scale, simulate_format} on mlp / residual block / attention block, formats fp8-nearest and lossless (+ mixed stochastic, thorough), "
                             "with and without calling the intermediate module before nesting; graphs from the real TorchDynamo path; the two orders' results unified for all data and dims",
-                  "non-destructive": "9 chains x 4 modules on real objects (concrete, labelled)",
+                  "non-destructive": "9 chains x 5 modules (one owning a float and an integer buffer) on real objects (concrete, labelled)",
                   "outside": "TorchDynamo's caching across repeated calls beyond 'two calls give equal results', and compile(): not encodable"}
     rep.assumptions = ["equal parameters in both orders = the same symbolic leaves; unit_scale's weight re-initialisation is deterministic"]
     rep.trusted = ["TorchDynamo capture", "engine S", "z3 for path feasibility over backend kinds"]
